@@ -474,7 +474,7 @@ def run_check(prop, tier, verif_seed, workers=None, runs=None, budget_s=None):
             continue
         res, item2 = got
         rep = {
-            "property": prop, "invariant": inv, "detail": item2.get("detail"), "tags": item2.get("tags", {}),
+            "property": prop, "invariant": inv, "detail": str(item2.get("detail"))[:3000], "tags": item2.get("tags", {}),
             "expected_digest": res["digest"], "scenario": small,
             "found_at": {"verif_seed": verif_seed, "index": v["index"], "tier": tier, "kind": v["kind"]},
             "minimisation": {"candidate_executions": n_exec,
